@@ -284,9 +284,26 @@ def relation_check(ctx, rng, spec, rel, mode, cross, cond_max=1e8):
         import tempfile
 
         def expressible(sp):
-            keep = {v["id"] for v in sp["vertices"] if v["kind"] in ("se2", "se3")}
-            return {"vertices": [v for v in sp["vertices"] if v["id"] in keep],
-                    "edges": [e for e in sp["edges"] if e["type"] == "odo" and e["est_kind"] in ("se2", "se3") and all(j in keep for j in e["ids"])]}
+            # SE(2)/SE(3) poses, the landmarks they observe, odometry edges, SE(2) landmark edges (offset replaced by the identity in *both* sub-graphs:
+            # the format has no 2-D offset) and SE(3) landmark edges (each offset registered as its own PARAMS_SE3OFFSET entry)
+            kinds = {v["id"]: v["kind"] for v in sp["vertices"]}
+            edges, params = [], []
+            for e in sp["edges"]:
+                ks = [kinds.get(j) for j in e["ids"]]
+                if e["type"] == "odo" and e["est_kind"] in ("se2", "se3"):
+                    edges.append(gen.copy_spec(e))
+                elif e["type"] == "lm" and ks == ["se2", "r2"]:
+                    e2 = gen.copy_spec(e)
+                    e2["off"] = R.identity("se2")
+                    edges.append(e2)
+                elif e["type"] == "lm" and ks == ["se3", "r3"] and e.get("off") is not None:
+                    e2 = gen.copy_spec(e)
+                    e2["off_id"] = len(params)
+                    params.append({"tag": "PARAMS_SE3OFFSET", "id": len(params), "value": list(e["off"])})
+                    edges.append(e2)
+            used = {j for e in edges for j in e["ids"]}
+            keep = {v["id"] for v in sp["vertices"] if v["kind"] in ("se2", "se3")} | used
+            return {"vertices": [v for v in sp["vertices"] if v["id"] in keep], "edges": edges, "params": params}
         sub0, sub2 = expressible(spec), expressible(spec2)
         if sub2["edges"]:
             dtmp = tempfile.mkdtemp(prefix="c08-", dir=os.environ.get("VF_SCRATCH"))
